@@ -29,7 +29,9 @@ RULE = (
     "ordered pair of the 8 frames x every argument form (to_grid none/self/clone/other, 8 shape/dtype forms, "
     "default rounding and decimals=None, points and vectors, matrix and applied forms, *_to_* helpers), every "
     "path up to the tier depth; plus anchors, coords(dim) for every n in [1,4096], coords()/points() forms, "
-    "grid_sample identity for all shapes, Cube maps. distinct outcome = exact bytes of returned matrices / "
+    "grid_sample identity for all shapes, Cube maps; layout: every point/vector tensor of every Grid and Cube "
+    "conversion (all axes pairs, one- and two-grid) and every tensor argument of the Grid constructor as transposed / "
+    "step-sliced / stride-0 expanded view on a 4-grid menu. distinct outcome = exact bytes of returned matrices / "
     "mapped probe set; non-trivial = the edge's reference map moves the probe set by more than 1e-3"
 )
 EXPLANATION = "bounded exhaustive exploration of the coordinate-frame graph of grid pairs against float64 reference maps"
@@ -42,7 +44,7 @@ ASSUMPTIONS = [
 ]
 MIN_NONTRIVIAL = {"quick": 7500, "thorough": 45000}
 MIN_OUTCOMES = {"quick": 35000, "thorough": 250000}
-MIN_SUB_TRACES = {"edge": 1000, "path": 1000, "anchors": 20, "lattice1d": 8000, "coordsND": 20, "gridsample": 400, "cube": 50}
+MIN_SUB_TRACES = {"edge": 1000, "path": 1000, "anchors": 20, "lattice1d": 8000, "coordsND": 20, "gridsample": 400, "cube": 50, "layout": 2300}
 
 AXN = (GRID, CUBE, CORNERS, WORLD)
 # path depth by tier and rounding mode; thorough explores depth 3 (default rounding) for the second grids in DEEP_B
@@ -201,6 +203,7 @@ def bounds(tier):
         "path_depth_decimals_none": PATH_DEPTH[tier]["none"],
         "n_range": [1, NMAX],
         "gridsample_shapes": 81 + 125,
+        "layout": {"grids": len(layout_specs(0)), "forms": list(LAYOUT_FORMS), "constructor_arguments": ["size", "spacing", "direction", "origin", "center"]},
     }
 
 
@@ -1255,9 +1258,175 @@ def run_pairs(sink: Sink, spec: dict, tier: str, seed: int):
         sink.sample({"path_example": ["A.grid", "B.cube", "A.world", "A.grid"], "grid_A": spec, "B": menu[1][0], "judged": "closed walk returns to the probe set within the accumulated bound"})
 
 
+# ---------------------------------------------------------------------------
+# memory layout of user-supplied tensors
+LAYOUT_FORMS = ("transposed", "sliced", "expanded")
+
+
+def layout_specs(seed: int):
+    """Small grid menu of the layout sub-check: D in {2,3}, oriented, both flags, one fractional-size grid."""
+    d2, d3 = rg.direction_menu(2, seed), rg.direction_menu(3, seed)
+    return [
+        {"size": [5, 3], "spacing": [0.5, 1.25], "origin": [10.5, -3.25], "direction": d2["rot"], "ac": True, "dir": "rot"},
+        {"size": [8, 5], "spacing": [1.0, 1.0], "origin": [0.0, 0.0], "direction": d2["perm"], "ac": False, "dir": "perm"},
+        {"size": [4, 2, 7], "spacing": [0.5, 1.25, 2.0], "origin": [10.5, -3.25, 100.0], "direction": d3["rot"], "ac": False, "dir": "rot"},
+        {"size": [9, 7, 5], "spacing": [1.0, 1.0, 1.0], "origin": [0.0, 0.0, 0.0], "direction": d3["perm"], "ac": True, "dir": "perm", "derive": "downsample"},
+    ]
+
+
+def check_layout(sink: Sink, spec: dict, seed: int, only: dict = None):
+    """Every point / vector tensor argument of the conversion calls, and every tensor argument of the Grid
+    constructor, given as transposed view, step-sliced view and stride-0 expanded batch: no exception, result
+    equal to the contiguous form, argument unchanged (bits and _version)."""
+    from deepali.core.cube import cube_transform_points
+    from deepali.core.grid import Axes, Grid
+
+    from ref.layout import applicable, relayout
+
+    bname, specB = [b for b in b_menu(spec, seed) if b[0] == "rot"][0]
+    pair = Pair(spec, specB, bname)
+    if pair.err is not None:
+        sink.violation(f"C01/construct/raises={type(pair.err).__name__}", pair.case(sub="construct"), exc_text(pair.err), size=0)
+        return
+    D = pair.D
+
+    def unit(name, fn, x64, tol, what):
+        """fn(tensor) judged for every layout form of the tensor x64 (float32)."""
+        if only is not None and only.get("name") != name:
+            return
+        case = pair.case(sub="layout", name=name, seed=seed)
+        for shp in ("MD", "23D"):
+            unit_shape(name, fn, torch.tensor(x64, dtype=torch.float32).reshape((-1, D) if shp == "MD" else (2, 3, D)), tol, what, case, shp)
+        sink.nontriv("layout", pair.key(), name)
+
+    def unit_shape(name, fn, x, tol, what, case, shp):
+        sink.trans()
+        st, ref = guarded(fn, relayout(x, "contig"))
+        if st == "raises" or not isinstance(ref, torch.Tensor):
+            sink.undef("layout: contiguous form fails (reported by the edge / cube sub-checks)")
+            return
+        for form in LAYOUT_FORMS:
+            if not applicable(x, form):
+                continue
+            xv = relayout(x, form, n=2)
+            exp = ref
+            if form == "expanded":
+                sink.trans()
+                st, exp = guarded(fn, relayout(x, "repeat", n=2))
+                if st == "raises" or not isinstance(exp, torch.Tensor):
+                    sink.undef("layout: batched contiguous form not accepted by this call")
+                    continue
+            before, ver = tensor_bytes(xv), xv._version
+            sink.trans()
+            st, got = guarded(fn, xv)
+            sig = f"C01/layout/{name}/shape={shp}/layout={form}/"
+            sink.trace("layout")
+            sink.outcome("layout", pair.key(), name, shp, form, tensor_bytes(got) if st == "ok" and isinstance(got, torch.Tensor) else repr(type(got)))
+            if st == "raises":
+                sink.violation(sig + "raises=" + type(got).__name__, case, f"{what} with a {form} tensor: {exc_text(got)}", size=1)
+                continue
+            bad = compare(got, as_np(exp), tol)
+            if bad:
+                sink.violation(sig + bad[0], case, f"{what} with a {form} tensor differs from the contiguous form: {bad[1]}", size=1)
+            elif tensor_bytes(got) != tensor_bytes(exp):
+                sink.info["layout_results_not_bit_identical"] = sink.info.get("layout_results_not_bit_identical", 0) + 1
+            if tensor_bytes(xv) != before or xv._version != ver:
+                sink.violation(sig + "operand-mutated", case, f"{what}: the {form} argument tensor was modified (bits or _version)", size=1)
+
+    V = VEC[D].astype(np.float32).astype(np.float64)
+    # -- Grid conversions: all axes pairs, one- and two-grid forms --------------------------------
+    for two in (False, True):
+        for src in [n for n in pair.nodes if n[0] == 0]:
+            for dst in [n for n in pair.nodes if n[0] == (1 if two else 0)]:
+                tg = "other" if two else "none"
+                lab = f"{src[1]}->{dst[1]}/{'two-grid' if two else 'one-grid'}"
+                x = pair.P[src]
+                tolp = pair.tolp(src, dst, x)
+                tolv = pair.tolv(src, dst, V)
+                unit(f"transform_points/{lab}", lambda t, a=src, b=dst, g=tg: call_edge(pair, a, b, t, g, "transform_points", None), x, tolp, "transform_points")
+                unit(f"transform_points(default-rounding)/{lab}", lambda t, a=src, b=dst, g=tg: call_edge(pair, a, b, t, g, "transform_points", -1), x, tolp + fr.rounding_term(dst[1], -1), "transform_points")
+                unit(f"transform_vectors/{lab}", lambda t, a=src, b=dst, g=tg: call_edge(pair, a, b, t, g, "transform_vectors"), V, tolv, "transform_vectors")
+                unit(f"apply_transform/{lab}", lambda t, a=src, b=dst, g=tg: call_edge(pair, a, b, t, g, "apply_transform", None), x, tolp, "apply_transform")
+                unit(f"apply_transform(vectors)/{lab}", lambda t, a=src, b=dst, g=tg: call_edge(pair, a, b, t, g, "apply_transform_vectors"), V, tolv, "apply_transform(vectors=True)")
+                if not two:
+                    G = pair.grids[0]
+                    for hname, kw in helper_calls(src[1], dst[1], pair.refs[0].ac):
+                        unit(f"{hname}{'(ac=default)' if not kw else ''}/{lab}", lambda t, h=hname, k=kw: getattr(G, h)(t, **k), x, tolp + fr.rounding_term(dst[1], -1), hname)
+    # -- Cube conversions ---------------------------------------------------------------------------
+    rA, rB = pair.refs
+    st, cubes = guarded(lambda: (pair.grids[0].cube(), pair.grids[1].cube()))
+    if st == "ok":
+        cA, cB = cubes
+        caxA = CORNERS if rA.ac else CUBE
+        caxB = CORNERS if rB.ac else CUBE
+        for a1, a2, to in (("cube", "world", False), ("world", "cube", False), ("cube", "cube", True), ("world", "cube", True), ("cube", "world", True)):
+            f1 = (0, caxA if a1 == "cube" else WORLD)
+            f2 = ((1 if to else 0), (caxB if to else caxA) if a2 == "cube" else WORLD)
+            x = pair.P[f1]
+            lab = f"{a1}->{a2}/{'to_cube' if to else 'one-cube'}"
+            kw = {"to_cube": cB} if to else {}
+            unit(f"Cube.transform_points/{lab}", lambda t, p=a1, q=a2, k=kw: cA.transform_points(t, Axes(p), Axes(q), **k), x, pair.tolp(f1, f2, x), "Cube.transform_points")
+            unit(f"Cube.transform_vectors/{lab}", lambda t, p=a1, q=a2, k=kw: cA.transform_vectors(t, Axes(p), Axes(q), **k), V, pair.tolv(f1, f2, V), "Cube.transform_vectors")
+            unit(f"Cube.apply_transform/{lab}", lambda t, p=a1, q=a2, k=kw: cA.apply_transform(t, Axes(p), Axes(q), **k), x, pair.tolp(f1, f2, x), "Cube.apply_transform")
+        unit("Cube.cube_to_world", lambda t: cA.cube_to_world(t), pair.P[(0, caxA)], pair.tolp((0, caxA), (0, WORLD), pair.P[(0, caxA)]), "Cube.cube_to_world")
+        unit("Cube.world_to_cube", lambda t: cA.world_to_cube(t), pair.P[(0, WORLD)], pair.tolp((0, WORLD), (0, caxA), pair.P[(0, WORLD)]), "Cube.world_to_cube")
+        unit("cube_transform_points/world->cube/to_cube", lambda t: cube_transform_points(t, cA, Axes.WORLD, cB, Axes.CUBE), pair.P[(0, WORLD)], pair.tolp((0, WORLD), (1, caxB), pair.P[(0, WORLD)]), "cube_transform_points")
+    # -- Grid constructor given non-contiguous attribute tensors ---------------------------------------
+    base = {k: v for k, v in spec.items() if k != "derive"}
+    r0 = rg.ref_grid(base)
+    attrs = {"spacing": np.asarray(base["spacing"], float), "origin": np.asarray(base["origin"], float), "center": r0.c, "direction": r0.R, "size": np.asarray(base["size"], float)}
+
+    def build(route, override):
+        kw = dict(size=tuple(int(v) for v in base["size"]), spacing=tuple(base["spacing"]), direction=r0.R.tolist(), align_corners=base["ac"])
+        kw[route] = tuple(attrs[route].tolist())
+        kw.update(override)
+        return Grid(**kw)
+
+    def views(g):
+        return b"|".join([tensor_bytes(g._size), tensor_bytes(g.spacing()), tensor_bytes(g.center()), tensor_bytes(g.direction()), tensor_bytes(g.origin())])
+
+    for route in ("origin", "center"):
+        st, gref = guarded(build, route, {})
+        if st == "raises":
+            sink.undef("layout: reference construction fails")
+            continue
+        vref = views(gref)
+        for arg in ("spacing", "direction", "size", route):
+            name = f"Grid({route}=)/arg={arg}"
+            if only is not None and only.get("name") != name:
+                continue
+            case = pair.case(sub="layout", name=name, seed=seed)
+            t = torch.tensor(attrs[arg], dtype=torch.float32)
+            for form in ("transposed", "sliced"):
+                if not applicable(t, form):
+                    continue
+                tv = relayout(t, form)
+                if arg == "size":
+                    tv = relayout(torch.tensor(attrs[arg]).to(torch.int64), form)
+                before, ver = tensor_bytes(tv), tv._version
+                sink.trans()
+                st, g = guarded(build, route, {arg: tv})
+                sig = f"C01/layout/{name}/layout={form}/"
+                sink.trace("layout")
+                if st == "raises":
+                    sink.violation(sig + "raises=" + type(g).__name__, case, f"Grid({route}=) with a {form} '{arg}' tensor: {exc_text(g)}", size=1)
+                    continue
+                st, v = guarded(views, g)
+                sink.outcome("layout-ctor", pair.key(), name, form, v if st == "ok" else repr(type(v)))
+                if st == "raises":
+                    sink.violation(sig + "raises=" + type(v).__name__, case, f"grid built from a {form} '{arg}' tensor: {exc_text(v)}", size=1)
+                elif v != vref:
+                    sink.violation(sig + "value", case, f"grid built from a {form} '{arg}' tensor differs from the grid built from the same values: origin {as_np(g.origin()).tolist()} vs {as_np(gref.origin()).tolist()}, direction {as_np(g.direction()).round(5).tolist()}", size=1)
+                if tensor_bytes(tv) != before or tv._version != ver:
+                    sink.violation(sig + "operand-mutated", case, f"Grid({route}=): the {form} '{arg}' argument tensor was modified (bits or _version)", size=1)
+    sink.state(pair.key(), "layout")
+
+
 def shards(tier: str, seed: int):
     out = []
     L = lattice(tier, seed)
+    for i in range(len(layout_specs(seed))):
+        out.append({"kind": "layout", "tier": tier, "seed": seed, "grid": i})
     for i in range(len(L)):
         out.append({"kind": "frames", "tier": tier, "seed": seed, "grid": i})
     for k in range(N_CHUNKS):
@@ -1278,6 +1447,10 @@ def run_shard(shard) -> Acc:
     if kind == "frames":
         spec = lattice(shard["tier"], shard["seed"])[shard["grid"]]
         run_pairs(sink, spec, shard["tier"], shard["seed"])
+    elif kind == "layout":
+        check_layout(sink, layout_specs(shard["seed"])[shard["grid"]], shard["seed"])
+        acc.sample({"sub": "layout", "grid": layout_specs(shard["seed"])[shard["grid"]], "forms": list(LAYOUT_FORMS),
+                    "arguments": "points / vectors of every Grid and Cube conversion (all axes pairs, one- and two-grid), Grid constructor tensors"})
     elif kind == "lattice1d":
         for n in range(1 + shard["chunk"], NMAX + 1, N_CHUNKS):
             check_lattice_1d(sink, n)
@@ -1301,6 +1474,9 @@ def replay(case):
         return sink.out
     if sub == "gridsample":
         check_gridsample(sink, tuple(case["shape"]))
+        return sink.out
+    if sub == "layout":
+        check_layout(sink, case["A"], int(case.get("seed", 0)), only={"name": case["name"]})
         return sink.out
     pair = Pair(case["A"], case.get("B"), case.get("bname", ""))
     if pair.err is not None:
